@@ -762,6 +762,13 @@ def all_operations(api, rng):
                                           Call('read_fifo_frames', [rng.choice([0, 1, 7, 15])])]
     for mk in sorted(api.maker):
         ops.append(Call(mk, setters=P.rand_setters(api, rng, api.maker[mk], rng.randint(1, 3))))
+    for mk in sorted(api.maker):
+        # a request that touches every register of the block: every setter once, in random order (longest transaction sequences,
+        # temporary disable + parameter writes + restore all present)
+        ss = list(api.maker[mk]['setters'])
+        rng.shuffle(ss)
+        ops.append(Call(mk, setters=[(s['method'], [P.rand_arg(api, rng, k) for (_a, k) in s['args']]) for s in ss]))
+    ops.append(Call('config_wkup_int', setters=[('with_threshold', [rng.randint(1, 255)]), ('with_ref_accel', [rng.randint(1, 127), rng.randint(-128, -1), rng.randint(1, 127)])]))
     ops.append(Call('config_int_pins', setters=[('with_gen1', ['Int1']), ('with_actch', ['Int2']), ('with_wkup', ['Both'])]))
     ops.append(Call('config_gen1_int', setters=[('with_threshold', [rng.randint(1, 255)]), ('with_duration', [rng.randint(1, 65535)])]))
     ops.append(Call('config_fifo', setters=[('with_watermark_thresh', [rng.randint(1, 1024)])]))
